@@ -43,9 +43,19 @@ def main():
         build_broken = {"stage": "setup: %s" % type(e).__name__, "log": traceback.format_exc()[-3000:]}
 
     if args.replay:
+        # a replay shows the recorded case again (module-specific diagnostics, when the record carries a
+        # single grammar/input) and then repeats the run that produced the record -- same tier and seed --
+        # so that the exit status and the VIOLATION lines say whether the failure is still there
         rep = json.load(open(args.replay))
-        rc = mod.replay(ctx, rep)
-        sys.exit(rc)
+        try:
+            mod.replay(ctx, rep)
+        except SystemExit:
+            pass
+        except Exception:
+            print("replay: record not replayable in isolation")
+        print("replay: repeating the %s run with seed %s" % (rep.get("tier", tier), rep.get("seed", seed)))
+        ctx = common.Ctx(pid, rep.get("tier", tier) if rep.get("tier") in ("quick", "thorough") else tier,
+                         int(rep.get("seed", seed)))
 
     model_ok = os.path.exists(common.MODEL_BIN)
     if build_broken and not model_ok:
